@@ -110,6 +110,65 @@ def _still_writes(W, g_short, st, fld):
     return False
 
 
+def field_is_inert(W, st, fld):
+    """(True, '') when the value of a NEW field can influence nothing but itself: every value read from it (followed through locals and the results of
+    functions outside the crate) is stored back into the same field, dropped, logged, or returned by a function nothing in the crate calls.  A field that is
+    tested in a branch, stored elsewhere, handed to a crate function or captured by a closure is state that matters and gets (False, reason).
+    Diagnostic counters and timestamps pass; caches, flags and cursors do not."""
+    def mentions(pl):
+        return pl is not None and any(isinstance(e, dict) and e.get('f') == fld and strip_generics(e.get('adt', '')).split('::')[-1] == st for e in pl.proj)
+    for f in W.fns():
+        if f.derived:
+            continue
+        T = set()
+
+        def hot(pl):
+            return pl is not None and (mentions(pl) or pl.local in T)
+
+        def rv_hot(rv):
+            return any(o.is_place() and hot(o.place) for o in rv.operands()) or hot(rv.place)
+        changed = True
+        while changed:
+            changed = False
+            for b in f.blocks:
+                if b.cleanup:
+                    continue
+                for sx in b.stmts:
+                    if sx.k != 'assign' or not rv_hot(sx.rv):
+                        continue
+                    if mentions(sx.place):
+                        continue
+                    if sx.rv.k == 'agg' and sx.rv.j.get('ak') == 'closure':
+                        return False, 'captured by a closure in %s' % short(f.path)
+                    if sx.place.proj and not (sx.place.local in T):
+                        return False, 'a value read from it is stored into other state in %s (line %d)' % (short(f.path), sx.line)
+                    if sx.place.local not in T:
+                        T.add(sx.place.local)
+                        changed = True
+                t = b.term
+                if t.k == 'call' and any(a.is_place() and hot(a.place) for a in t.args):
+                    if 'tracing' in (t.callee.crate or '') or any('trace' in m or 'debug' in m or 'warn' in m or 'info' in m for m in (t.span.get('mac') or [])):
+                        continue
+                    if t.callee.indirect is not None or t.callee.rlocal or t.callee.local:
+                        return False, 'handed to the crate function %s in %s' % (t.callee.best, short(f.path))
+                    if not mentions(t.dest):
+                        if t.dest.proj and t.dest.local not in T:
+                            return False, 'a value computed from it is stored into other state in %s (line %d)' % (short(f.path), t.line)
+                        if t.dest.local not in T:
+                            T.add(t.dest.local)
+                            changed = True
+                elif t.k == 'switch' and t.discr.is_place() and hot(t.discr.place):
+                    return False, 'tested in a branch of %s (line %d)' % (short(f.path), t.line)
+                elif t.k == 'assert' and t.cond.is_place() and hot(t.cond.place):
+                    if 'Overflow' not in str(t.msg):
+                        return False, 'an assertion in %s depends on it' % short(f.path)
+        if 0 in T:
+            callers = W.cg.callers.get(f, ())
+            if callers:
+                return False, '%s returns it to %s' % (short(f.path), ', '.join(sorted(short(c.path) for c in callers))[:120])
+    return True, ''
+
+
 def state_rule_for(pid):
     def rule(W, ob):
         tab = _tab('state.json')['structs']
@@ -125,8 +184,12 @@ def state_rule_for(pid):
             for fld, ws in cur[st].items():
                 n += 1
                 if fld not in known:
+                    inert, why_not = field_is_inert(W, st, fld)
+                    if inert:
+                        ob.ok('%s.%s is new and inert: nothing but the field itself, a log line or an uncalled getter depends on its value' % (st, fld), None)
+                        continue
                     ob.fail('state|%s.%s|new-field' % (st, fld), '%s has a field `%s` the state inventory does not know (written by: %s): new state that lives across calls -- '
-                            'what keeps it in step with the state it caches, counts or shadows has not been reviewed (tables/state.json)' % (st, fld, ', '.join(ws) or 'constructor only'), None)
+                            'what keeps it in step with the state it caches, counts or shadows has not been reviewed (tables/state.json); it is not inert: %s' % (st, fld, ', '.join(ws) or 'constructor only', why_not), None)
                     continue
                 extra = sorted(set(ws) - set(known[fld]))
                 # a helper that only reviewed writers call (an extracted store) is not a new writer
@@ -581,30 +644,73 @@ def compute_shapes(W):
     return res
 
 
-def shape_rule(W, ob):
-    """named constants keep their reviewed values and every type of the crate keeps its reviewed shape (variants in order, fields in order, field types): a sentinel, a ring
-    size, a default or a wire constant changed by value; a checksum or a frame stored in a narrower type; a variant added, removed or reordered"""
-    tab = _tab('shapes.json')
-    cur_c, cur_s = compute_consts(W), compute_shapes(W)
-    n = 0
-    for name, v in sorted(cur_c.items()):
-        n += 1
-        if name not in tab['consts']:
-            ob.fail('const|%s|new' % name, 'constant `%s` = %s is not in the reviewed table (tables/shapes.json)' % (name, v), None)
-        else:
-            ob.check(tab['consts'][name] == v, 'const|%s|value' % name, '%s = %s (reviewed)' % (name, v),
-                     'constant `%s` is now %s (reviewed: %s): every site that uses it as a ring size, a bound, a sentinel, a default or a duration changed with it' % (name, v, tab['consts'][name]), None)
-    for name in tab['consts']:
-        if name not in cur_c:
-            ob.fail('const|%s|missing' % name, 'constant `%s` no longer exists (anchor)' % name, None)
-    for p, shape in sorted(cur_s.items()):
-        n += 1
-        if p not in tab['shapes']:
-            ob.fail('shape|%s|new' % p, 'type `%s` is not in the reviewed table (tables/shapes.json): a new type (new state, a new representation) has not been reviewed' % p, None)
-        else:
-            ob.check(tab['shapes'][p] == shape, 'shape|%s' % p, '%s has its reviewed shape' % p,
-                     'type `%s` changed shape: now %s, reviewed %s -- a field or variant was added, removed, reordered or retyped' % (p, json.dumps(shape)[:300], json.dumps(tab['shapes'][p])[:300]), None)
-    ob.require_count(n, 60, 'constants and types')
+# What a property needs from the named constants is a VALUE only where its statement names one ("documented bound of 100", "at least 3", "60 frames
+# apart") and otherwise a RELATION between constants (the cap of the resend queue is not below the longest input queue; keep-alives come at least twice
+# per default notify delay).  Round 12 showed that pinning every value and every type shape (the first version of this rule) alarms on edits under
+# which every property still holds: a retuned interval, another default, a private diagnostic field, reordered fields of a non-wire struct.
+def _cv(W, name):
+    c = W.fx.consts
+    for p, v in c.items():
+        if p.split('::')[-1] == name:
+            if 'val' in v:
+                return int(v['val'])
+            if 'Duration' in v.get('ty', ''):
+                return duration_const_ms(W, name)
+    raise AnchorMissing('constant %s' % name)
+
+
+U16 = 65535
+CONST_RELATIONS = [
+    # (properties, key, constants read, predicate over their values, what the relation is for)
+    (['C01', 'C02', 'C03', 'C07', 'C10', 'C11'], 'NULL_FRAME', ['NULL_FRAME'], lambda v: v['NULL_FRAME'] == -1,
+     'NULL_FRAME == -1: "nothing yet" is the predecessor of frame 0 (`last_frame + 1` is the first frame, a sentinel below every frame)'),
+    (['C12', 'C18'], 'MAX_EVENT_QUEUE_SIZE', ['MAX_EVENT_QUEUE_SIZE'], lambda v: v['MAX_EVENT_QUEUE_SIZE'] == 100,
+     'MAX_EVENT_QUEUE_SIZE == 100, the documented bound the property names'),
+    (['C15'], 'MIN_RECOMMENDATION', ['MIN_RECOMMENDATION', 'RECOMMENDATION_INTERVAL'], lambda v: v['MIN_RECOMMENDATION'] == 3 and v['RECOMMENDATION_INTERVAL'] == 60,
+     'MIN_RECOMMENDATION == 3 and RECOMMENDATION_INTERVAL == 60 (the values the property names)'),
+    (['C05', 'C07', 'C18'], 'PENDING_OUTPUT_SIZE', ['PENDING_OUTPUT_SIZE', 'INPUT_QUEUE_LENGTH'], lambda v: v['PENDING_OUTPUT_SIZE'] >= v['INPUT_QUEUE_LENGTH'] >= 2,
+     'PENDING_OUTPUT_SIZE >= INPUT_QUEUE_LENGTH: the cap that declares a silent remote dead is not reached before the prediction window (bounded by the input queue) stalls the session'),
+    (['C12'], 'NUM_SYNC_PACKETS', ['NUM_SYNC_PACKETS'], lambda v: v['NUM_SYNC_PACKETS'] >= 1, 'NUM_SYNC_PACKETS >= 1: the handshake has at least one round trip'),
+    (['C07', 'C12'], 'notify-before-timeout', ['DEFAULT_DISCONNECT_NOTIFY_START', 'DEFAULT_DISCONNECT_TIMEOUT'],
+     lambda v: 0 < v['DEFAULT_DISCONNECT_NOTIFY_START'] < v['DEFAULT_DISCONNECT_TIMEOUT'], 'default notify delay < default disconnect timeout'),
+    (['C05', 'C12'], 'retry-intervals', ['SYNC_RETRY_INTERVAL', 'RUNNING_RETRY_INTERVAL', 'KEEP_ALIVE_INTERVAL', 'DEFAULT_DISCONNECT_NOTIFY_START'],
+     lambda v: all(0 < v[k] and 2 * v[k] <= v['DEFAULT_DISCONNECT_NOTIFY_START'] for k in ('SYNC_RETRY_INTERVAL', 'RUNNING_RETRY_INTERVAL', 'KEEP_ALIVE_INTERVAL')),
+     'handshake retry, input retransmission and keep-alive each happen at least twice within the default notify delay'),
+    (['C08', 'C14'], 'MAX_DECODED_LEN', ['MAX_DECODED_LEN', 'PENDING_OUTPUT_SIZE'],
+     lambda v: (v['PENDING_OUTPUT_SIZE'] + 1) * (U16 + 2) <= v['MAX_DECODED_LEN'] <= 4 * (v['PENDING_OUTPUT_SIZE'] + 1) * (U16 + 2),
+     '(PENDING_OUTPUT_SIZE + 1) * 65537 <= MAX_DECODED_LEN <= 4 times that: every legitimate packet fits, nothing much larger is allocated'),
+    (['C06'], 'SPECTATOR_BUFFER_SIZE', ['SPECTATOR_BUFFER_SIZE', 'DEFAULT_MAX_FRAMES_BEHIND', 'DEFAULT_CATCHUP_SPEED'],
+     lambda v: v['SPECTATOR_BUFFER_SIZE'] >= 2 and 0 < v['DEFAULT_MAX_FRAMES_BEHIND'] < v['SPECTATOR_BUFFER_SIZE'] and v['DEFAULT_CATCHUP_SPEED'] >= 1,
+     'the spectator ring holds more frames than the default catch-up threshold'),
+    (['C09', 'C18'], 'MAX_CHECKSUM_HISTORY_SIZE', ['MAX_CHECKSUM_HISTORY_SIZE'], lambda v: v['MAX_CHECKSUM_HISTORY_SIZE'] >= 2, 'the checksum history holds at least two reports'),
+    (['C15'], 'FRAME_WINDOW_SIZE', ['FRAME_WINDOW_SIZE'], lambda v: v['FRAME_WINDOW_SIZE'] >= 1, 'the averaging window of the time sync is not empty'),
+    (['C08'], 'RECV_BUFFER_SIZE', ['RECV_BUFFER_SIZE', 'IDEAL_MAX_UDP_PACKET_SIZE'], lambda v: v['RECV_BUFFER_SIZE'] >= v['IDEAL_MAX_UDP_PACKET_SIZE'] > 0,
+     'the receive buffer holds at least one packet of the ideal maximum size'),
+    (['C04', 'C13', 'C16'], 'defaults-valid', ['DEFAULT_MAX_PREDICTION_FRAMES', 'DEFAULT_CHECK_DISTANCE', 'DEFAULT_FPS', 'DEFAULT_PLAYERS', 'INPUT_QUEUE_LENGTH'],
+     lambda v: v['DEFAULT_CHECK_DISTANCE'] < v['DEFAULT_MAX_PREDICTION_FRAMES'] < v['INPUT_QUEUE_LENGTH'] and v['DEFAULT_FPS'] > 0 and v['DEFAULT_PLAYERS'] > 0,
+     'the builder\'s defaults satisfy the builder\'s own constraints (check distance < prediction window < input queue, fps > 0, players > 0)'),
+]
+CONST_PROPS = sorted({p for r in CONST_RELATIONS for p in r[0]})
+
+
+def const_rule_for(pid):
+    def rule(W, ob):
+        n = 0
+        for props, k, names, pred, why in CONST_RELATIONS:
+            if pid not in props:
+                continue
+            vals = {nm: _cv(W, nm) for nm in names}
+            n += 1
+            ob.check(bool(pred(vals)), 'const|%s' % k, why, 'constants %s break the relation: %s' % (', '.join('%s = %s' % kv for kv in sorted(vals.items())), why), None)
+        ob.require_count(n, 1, 'constant relations of ' + pid)
+    return rule
+
+
+CONST_TITLE = 'constants: values the property names, relations it needs'
+CONST_TEXT = ('the named constants satisfy what this property needs of them (rules/inventory.py CONST_RELATIONS): a VALUE where the property\'s statement names one '
+              '(event-queue bound 100, recommendation threshold 3 / spacing 60, NULL_FRAME = -1 as the predecessor of frame 0), otherwise a RELATION (resend-queue cap >= input-queue '
+              'length, keep-alive / retry intervals at most half the default notify delay < default timeout, decode cap within 1..4 times the largest legitimate packet, '
+              'defaults inside the builder\'s own limits).  Retuning a constant inside its relation, or changing a type\'s private shape, is not reported.')
 
 
 # ---------------------------------------------------------------------------------------------------------------------------------------
